@@ -1,6 +1,7 @@
 (** C08 — property theorems only. *)
 From Coq Require Import List ZArith Bool.
-From C33 Require Import Lib.Bytes Lib.OMap C07.Model C07.Spec C08.Model C08.Spec C08.Proofs.
+From C33 Require Import Lib.Bytes Lib.OMap C07.Model C07.Spec C08.Model C08.Spec C08.Proofs
+  C08.HModel C08.HSpec C08.HProofsIso C08.HProofs.
 Import ListNotations.
 
 (** every operation of every history returns what the (base, committed overlay, optional open
@@ -30,3 +31,36 @@ Print Assumptions C08_list_agrees_with_get.
 Theorem C08_refines_refuted : ~ refines_full.
 Proof. exact refines_full_refuted. Qed.
 Print Assumptions C08_refines_refuted.
+
+(** blockchain/localdb.go: the replies to the requests that reach transaction id [i] (between the [i]-th
+    EventLocalNew and its EventLocalClose) are those of one LocalDB over the block-store database serving
+    these requests alone — whatever is sent to other ids, committed or not, is invisible; no guard *)
+Theorem C08_handlers_isolated : forall base hs i,
+  replies_for i hs (run_handlers base hs) =
+  serve_all ldb ldb_step (new_localdb base (ro_of i 0%Z hs)) (reqs_for i hs).
+Proof. exact handlers_isolated. Qed.
+Print Assumptions C08_handlers_isolated.
+
+(** ... and therefore those of the (base, committed overlay, open transaction) specification of
+    C08_refines_partial, per transaction id *)
+Theorem C08_handlers_refine_partial : forall base hs i,
+  wf_store base -> forallb hop_ok hs = true ->
+  replies_for i hs (run_handlers base hs) =
+  serve_all sdb s_step (new_spec base (ro_of i 0%Z hs)) (reqs_for i hs).
+Proof. exact handlers_refine. Qed.
+Print Assumptions C08_handlers_refine_partial.
+
+(** the whole message layer (ids handed out, unknown / closed ids, requests without an id reading the base,
+    counts) answers like the specification machine, provided counts are only asked on behalf of
+    transactions that are never written *)
+Theorem C08_handlers_machine_partial : forall base hs,
+  wf_store base -> forallb hop_ok hs = true -> count_ok hs = true ->
+  run_handlers base hs = run_hspec base hs.
+Proof. exact handlers_machine. Qed.
+Print Assumptions C08_handlers_machine_partial.
+
+(** without the count guard it does not: EventLocalPrefixCount carries no transaction id and counts the raw
+    database, so inside a transaction the count disagrees with the transaction's point reads and listing *)
+Theorem C08_handlers_machine_refuted : ~ handlers_machine_full.
+Proof. exact handlers_machine_full_refuted. Qed.
+Print Assumptions C08_handlers_machine_refuted.
